@@ -638,10 +638,23 @@ func (x *expander) inline(call *ast.CallExpr, ctx *callCtx, depth int) ([]ast.St
 		// the copy inside the view: its captured variables are the view's (renamed) ones
 		region, srcBody, srcType = c.lit, c.lit.Body, c.lit.Type
 	}
-	lo, hi := region.Pos(), region.End()
+	// the objects declared inside the callee (its parameters, results, locals and labels, including those of
+	// code expanded into it earlier) are renamed per copy
+	declared := map[types.Object]bool{}
+	ast.Inspect(region, func(n ast.Node) bool {
+		if id, ok := n.(*ast.Ident); ok {
+			if o := x.info.Defs[id]; o != nil {
+				declared[o] = true
+			}
+		}
+		if o, ok := x.info.Implicits[n]; ok && n != nil {
+			declared[o] = true
+		}
+		return true
+	})
 	off := x.p.shiftFile(srcBody.Pos())
 	cl := &cloner{p: x.p, info: x.info, off: off, objs: map[types.Object]types.Object{}, subst: map[types.Object]ast.Expr{},
-		local: func(o types.Object) bool { return o.Pos() >= lo && o.Pos() < hi }}
+		local: func(o types.Object) bool { return declared[o] }}
 	at := call.Pos()
 	var out []ast.Stmt
 
